@@ -18,6 +18,8 @@ import (
 	metav1 "k8s.io/apimachinery/pkg/apis/meta/v1"
 
 	"verif/explore"
+	"verif/harness/ctl"
+	"verif/harness/fakeapi"
 	"verif/harness/hx"
 	"verif/runner"
 	"verif/vs"
@@ -110,6 +112,7 @@ type observation struct {
 	list        string
 	parentReady bool
 	refStarted  int
+	refDone     int
 }
 
 type inst struct {
@@ -191,8 +194,12 @@ func (in *inst) run() {
 		n2 := n
 		go func() {
 			<-n2.Ready()
+			// a receive on a closed channel completes right after the close (before any other goroutine moves):
+			// this is the number of Refilter calls that had returned - hence been processed - when the node became ready
+			doneAtClose := in.refDone
+			vs.Note(uint64(doneAtClose))
 			l, err := n2.Cache().List()
-			o := observation{node: n2.Path, list: hx.ListString(l), parentReady: hx.IsClosed(in.root.ReadyCh), refStarted: in.refStarted}
+			o := observation{node: n2.Path, list: hx.ListString(l), parentReady: hx.IsClosed(in.root.ReadyCh), refStarted: in.refStarted, refDone: doneAtClose}
 			vs.Note(uint64(in.refStarted))
 			if err != nil {
 				o.list = "error:" + err.Error()
@@ -321,13 +328,26 @@ func (in *inst) check(r *vs.Result) []string {
 		cands := [][]int{}
 		base := in.pathFilters(n)
 		// candidate filters for the top node: initial one and every refilter filter
-		tops := []int{}
+		// filters the top node may legitimately be synced under when its cache is read: the one in force when
+		// Ready() closed (every Refilter call that had returned by then has been processed: same goroutine), or a
+		// later one whose call had started before the read
+		seq := []int{in.top.Spec.Filter}
 		if in.top.Spec.Kind == "dsub" || in.top.Spec.Kind == "dclone" {
-			// a deferred node is only ready after a supplied filter has been applied
-		} else {
-			tops = append(tops, in.top.Spec.Filter)
+			seq[0] = -1 // a deferred node is only ready after a supplied filter has been applied
 		}
-		tops = append(tops, c.Refs...)
+		seq = append(seq, c.Refs...)
+		tops := []int{}
+		from := o.refDone
+		if n != in.top && from > 0 {
+			// a node below the refiltered one syncs from that node's cache, whose goroutine may still be
+			// processing the last Refilter call that returned
+			from--
+		}
+		for i := from; i <= o.refStarted && i < len(seq); i++ {
+			if seq[i] >= 0 {
+				tops = append(tops, seq[i])
+			}
+		}
 		for _, tf := range tops {
 			fs := []int{tf}
 			// other filters on the path (nested fsub)
@@ -350,7 +370,7 @@ func (in *inst) check(r *vs.Result) []string {
 			}
 		}
 		if !ok {
-			add("C08", "cache read at readiness is not a synced content", "node %s: List() right after Ready() returned %s, which is filter(P) for no parent content P and no filter set so far (candidates %v)", o.node, o.list, uniq(tried))
+			add("C08", "cache read at readiness is not a synced content", "node %s: List() right after Ready() returned %s, which is filter(P) for no parent content P under the filter(s) in force then (%d Refilter calls returned, %d started; candidates %v)", o.node, o.list, o.refDone, o.refStarted, uniq(tried))
 		}
 	}
 	// tolerant mirror for C06: leaf events replayed version-aware over the content observed at readiness
@@ -453,6 +473,61 @@ func configs(tier string) []cfg {
 	return out
 }
 
+// controllerScenarios: the controller clauses of C08 on the whole real controller - Ready() closes only
+// after the first list has been applied (the cache read at that instant is a real accepted content), and a
+// first list that fails, blocks or is overtaken by Close / context cancellation never makes anything ready.
+func controllerScenarios(tier string) []runner.Sc {
+	d := 1
+	if tier == "thorough" {
+		d = 2
+	}
+	pre := []ctl.Mut{{Op: "set", Name: "a", Labels: "l=1"}}
+	h := []ctl.Mut{{Op: "set", Name: "b", Labels: "l=1"}}
+	tree := []hx.Spec{{Kind: "sub"}, {Kind: "clone", Children: []hx.Spec{{Kind: "sub"}, {Kind: "clone", Children: []hx.Spec{{Kind: "sub"}}}}}, {Kind: "fsub", Filter: 2}}
+	oracle := func(neverReady bool) func(in *ctl.Inst, r *vs.Result) []string {
+		return func(in *ctl.Inst, r *vs.Result) []string {
+			o := in.O
+			desc := in.Desc()
+			if o.CreateErr != nil || !o.ObserverRan {
+				return []string{"harness | controller scenario did not run: " + desc}
+			}
+			var msgs []string
+			if neverReady {
+				if o.ReadyAtRead || o.ReadySeen {
+					msgs = append(msgs, fmt.Sprintf("ready although the first list was never applied | %s: controller Ready() closed", desc))
+				}
+				for p, rdy := range o.NodeReady {
+					if rdy {
+						msgs = append(msgs, fmt.Sprintf("ready although the first list was never applied | %s: node %s Ready() closed", desc, p))
+					}
+				}
+			} else if o.ReadySeen {
+				ok := o.ReadyList == ctl.Accepted(in.C.Filter, []metav1.Object{hx.Pod("ns", "a", "1", "l=1")}) ||
+					o.ReadyList == ctl.Accepted(in.C.Filter, []metav1.Object{hx.Pod("ns", "a", "1", "l=1"), hx.Pod("ns", "b", "2", "l=1")})
+				if !ok {
+					msgs = append(msgs, fmt.Sprintf("cache read at readiness is not a synced content | %s: controller List() right after Ready() returned %s", desc, o.ReadyList))
+				}
+			}
+			return msgs
+		}
+	}
+	mk := func(name string, c ctl.Cfg, never bool) runner.Sc {
+		c.Name, c.Period, c.Tree, c.Pre, c.Hist, c.Mode, c.Bound = "controller/"+name, 3*time.Second, tree, pre, h, "S2", d
+		if c.ReadAt == 0 {
+			c.ReadAt = 2 * time.Second
+		}
+		return ctl.Scenario("C08", c, oracle(never))
+	}
+	return []runner.Sc{
+		mk("first-list-ok", ctl.Cfg{}, false),
+		mk("first-list-slow", ctl.Cfg{ListFaults: map[int]fakeapi.ListFault{1: {Latency: time.Second}}}, false),
+		mk("first-list-error", ctl.Cfg{ListFaults: map[int]fakeapi.ListFault{1: {Kind: "error"}}}, true),
+		mk("first-list-nonlist", ctl.Cfg{ListFaults: map[int]fakeapi.ListFault{1: {Kind: "nonlist"}}}, true),
+		mk("close-while-first-list-blocks", ctl.Cfg{ListFaults: map[int]fakeapi.ListFault{1: {Kind: "block"}}, Close: ctl.CloseSpec{Kind: "close", AfterMut: -1, At: time.Second}}, true),
+		mk("ctx-cancel-while-first-list-blocks", ctl.Cfg{ListFaults: map[int]fakeapi.ListFault{1: {Kind: "block"}}, Close: ctl.CloseSpec{Kind: "ctx", AfterMut: -1, At: time.Second}}, true),
+	}
+}
+
 func Property(id string) runner.Property {
 	rule := map[string]string{
 		"C06": "oracle at quiescence (read by a goroutine released when nothing else can happen): every node's cache equals the reference filter(s) on its path applied to the parent's cache at the parent's versions (nested: conjunction), and the leaf's event stream replayed over its content at readiness converges to its cache",
@@ -470,6 +545,9 @@ func Property(id string) runner.Property {
 			var out []runner.Sc
 			for _, c := range configs(tier) {
 				out = append(out, scenario(id, c))
+			}
+			if id == "C08" {
+				out = append(out, controllerScenarios(tier)...)
 			}
 			sort.SliceStable(out, func(i, j int) bool { return out[i].Mode == "S2" && out[j].Mode != "S2" })
 			return out
